@@ -101,7 +101,15 @@ def _probe(prog, calls):
             r = (r[0], r[1]) if r[0] == "handler" else r
         except BaseException as e:  # noqa: BLE001
             r = ("exc", type(e).__name__)
-        out.append((norm(r), norm(prog.call(c))))
+        # f.next(...) called from outside any method behaves like a fresh call - it must not answer from a
+        # half-built table either (asked before the call, which may itself trigger the rebuild)
+        nx = ("skipped",)
+        if prog.instance is None and not c.get("kw"):
+            from ..observe import outcome
+            pos = prog.args(c)[0]
+            prog.vf.alt = prog.args(c)[2]
+            nx = norm(outcome(lambda: prog.ov.next(*pos), prog.vf, prog.names))
+        out.append((norm(r), norm(prog.call(c)), nx))
     return out
 
 
@@ -286,7 +294,13 @@ def _invalid(spec, env, res, ref, behaviours):
         outs2 = _probe(prog, spec["probes"])
         behaviours.add(repr(outs))
         for label, vec in (("first-pass", outs), ("second-pass", outs2)):
-            for c, (r, o) in zip(spec["probes"], vec):
+            for c, (r, o, nx) in zip(spec["probes"], vec):
+                if nx != ("skipped",) and not _is_config_error(nx):
+                    res.violation("next-answered-while-invalid-method-registered", [spec["badkind"], label, nx[0]], spec,
+                                  observed={"position": p, "call": c, "f.next": nx},
+                                  acceptable="a configuration error")
+                    prog.close()
+                    return
                 if r[0] in ("handler", "none", "amb"):
                     res.violation("resolve-answered-while-invalid-method-registered", [spec["badkind"], label, r[0]], spec,
                                   observed={"position": p, "call": c, "resolve": r},
